@@ -510,69 +510,82 @@ Proof. vm_compute. repeat split; reflexivity. Qed.
 From SV Require Import proofs.EngineAmendProofs proofs.EngineAmendFull.
 
 (* The statement for this fragment: the ungated engine (remembered amended edges and the deferred
-   flag do not block a rerun) on projects whose order is topological for amended edges too.
+   flag do not block a rerun) with failing steps (builds with --keep-going), on projects whose
+   order is topological for amended edges too.  [same_result_a] = same step states (SUCCEEDED /
+   FAILED / PENDING), same contents of every output of a SUCCEEDED step.
    Proved below (C01_amend_full_holds): a finished state is determined by the world
    (proofs/EngineAmendProofs.v) and every build from every state that builds reach ends in a
    finished state (proofs/EngineAmendFull.v). *)
 Definition C01_amend_full : Prop :=
-  forall run amend proj, wf_a amend proj ->
-    C01_full_for empty_asys (build_world_a run amend false proj)
-                 (fun a b => same_result proj (abase a) (abase b)).
+  forall run amend fails proj, wf_a amend proj ->
+    C01_full_for empty_asys (build_world_a run amend fails false proj) (same_result_a proj).
 
 (* For ALL programs [run], ALL amend behaviours (which further inputs a step asks for, as a
-   function of the contents of its declared inputs), ALL projects whose order is topological for
-   declared and amended inputs, ALL finite sequences of worlds (sources changed, deleted,
-   restored, scripts switched so that other inputs are amended, variables changed): building the
-   last world on top of what the earlier builds left -- recorded traces, remembered amended
-   edges, deferred steps -- has the step states and the output contents of building it on
-   nothing.  No hypothesis besides wf_a. *)
+   function of the contents of its declared inputs), ALL failure behaviours [fails] (whether the
+   command fails, as a function of the contents of declared ++ amended inputs and of the values
+   of the tracked variables), ALL projects whose order is topological for declared and amended
+   inputs, ALL finite sequences of worlds (sources changed, deleted, restored, scripts switched
+   so that other inputs are amended or the step fails / is repaired, variables changed): building
+   the last world on top of what the earlier builds left -- recorded traces, remembered amended
+   edges, deferred steps, failed steps -- has the step states and the output contents of
+   building it on nothing.  No hypothesis besides wf_a. *)
 Theorem C01_amend_full_holds : C01_amend_full.
-Proof. intros run amend proj H ws w. apply amend_equiv_scratch. exact H. Qed.
+Proof. intros run amend fails proj H ws w. apply amend_equiv_scratch. exact H. Qed.
 
 Section Amended.
   Variable run : N -> list (option N) -> list (option N) -> N -> N.
   Variable amend : N -> list (option N) -> list N.
+  Variable fails : N -> list (option N) -> list (option N) -> bool.
 
   (* Finished_a = at every step, with its amended inputs made explicit: declared and amended
-     inputs all available => SUCCEEDED with outputs run(contents of declared ++ amended inputs,
-     variables); otherwise PENDING.  Two finished states with the same sources and environment
-     have the same step states and the same outputs of SUCCEEDED steps -- whatever the builds
-     before did and whatever amended edges and deferred flags they left. *)
-  Theorem C01_amended_finished_state_unique_partial :
-    forall (proj : project) (y z : sys),
-      wf_a amend proj -> Finished_a run amend proj y -> Finished_a run amend proj z ->
-      same_world proj y z -> same_result proj y z.
-  Proof. exact (finished_a_unique run amend). Qed.
+     inputs all available and the command succeeds => SUCCEEDED with outputs run(contents of
+     declared ++ amended inputs, variables); all available and the command fails => FAILED;
+     otherwise PENDING.  Two finished states with the same sources and environment have the same
+     step states and the same outputs of SUCCEEDED steps -- whatever the builds before did and
+     whatever amended edges and deferred flags they left. *)
+  Theorem C01_amended_finished_state_unique :
+    forall (proj : project) (y z : asys),
+      wf_a amend proj -> Finished_a run amend fails proj y -> Finished_a run amend fails proj z ->
+      same_world proj (abase y) (abase z) -> same_result_a proj y z.
+  Proof. exact (finished_a_unique run amend fails). Qed.
 
   (* The other half.  [InvA] (proofs/EngineAmendFull.v) = recorded traces valid for the step with
      its REMEMBERED amended inputs, remembered amended inputs = what the step amends on the
      recorded declared-input contents, K and closure over declared ++ remembered inputs,
-     remembered inputs come from earlier steps.  It holds in the empty state, survives the
-     startup rescan on any world and every build of the ungated engine, and a build from a state
-     that satisfies it ends in a finished state with sources and environment untouched. *)
+     remembered inputs come from earlier steps, the run that recorded a trace did not fail.  It
+     holds in the empty state, survives the startup rescan on any world (which also makes every
+     FAILED step PENDING again) and every build of the ungated engine, and a build from a state
+     that satisfies it and has no FAILED step ends in a finished state with sources and
+     environment untouched. *)
   Theorem C01_amended_build_ends_finished :
     forall (proj : project) (y : asys),
-      wf_a amend proj -> InvA run amend proj y ->
-      InvA run amend proj (a_build run amend false proj y) /\
-      Finished_a run amend proj (abase (a_build run amend false proj y)) /\
-      same_world proj (abase y) (abase (a_build run amend false proj y)).
-  Proof. intros proj y H. exact (a_build_ok run amend proj H y). Qed.
+      wf_a amend proj -> InvA run amend fails proj y ->
+      (forall q, In q proj -> afail y (sid q) = false) ->
+      InvA run amend fails proj (a_build run amend fails false proj y) /\
+      Finished_a run amend fails proj (a_build run amend fails false proj y) /\
+      same_world proj (abase y) (abase (a_build run amend fails false proj y)).
+  Proof. intros proj y H. exact (a_build_ok run amend fails proj H y). Qed.
 
   Theorem C01_amended_rescan_keeps_invariant :
     forall (proj : project) (y : asys) (w : world),
-      wf_a amend proj -> InvA run amend proj y -> InvA run amend proj (resync_a proj y w).
-  Proof. intros proj y w H HI. exact (proj1 (resync_a_inv run amend proj H y w HI)). Qed.
+      wf_a amend proj -> InvA run amend fails proj y ->
+      InvA run amend fails proj (resync_a proj y w) /\ (forall id, afail (resync_a proj y w) id = false).
+  Proof.
+    intros proj y w H HI. destruct (resync_a_inv run amend fails proj H y w HI) as (H1 & _ & _ & H4).
+    split; assumption.
+  Qed.
 
   Theorem C01_amended_every_reached_state_finished :
     forall (proj : project) (ws : list world) (w : world),
       wf_a amend proj ->
-      Finished_a run amend proj
-        (abase (build_world_a run amend false proj w
-                  (fold_left (fun s x => build_world_a run amend false proj x s) ws empty_asys))).
+      Finished_a run amend fails proj
+        (build_world_a run amend fails false proj w
+           (fold_left (fun s x => build_world_a run amend fails false proj x s) ws empty_asys)).
   Proof.
     intros proj ws w H.
-    exact (proj1 (proj2 (build_world_a_inv run amend proj H w _
-                           (worlds_a_inv run amend proj H ws empty_asys (empty_InvA run amend proj))))).
+    exact (proj1 (proj2 (build_world_a_inv run amend fails proj H w _
+                           (worlds_a_inv run amend fails proj H ws empty_asys
+                                         (empty_InvA run amend fails proj))))).
   Qed.
 End Amended.
 
@@ -586,11 +599,11 @@ Theorem C01_D28_engine_refuted :
   let scr g := bw28 g w28b empty_asys in
   map (stt (abase (bw28 true w28a empty_asys))) [1; 2] = [Succeeded; Succeeded] /\
   adyn (bw28 true w28a empty_asys) 2 = [10] /\
-  a_build_log mix_run (amend_tab tab28) true p28 p28 (resync_a p28 (bw28 true w28a empty_asys) w28b) = [] /\
+  a_build_log mix_run (amend_tab tab28) no_fail true p28 p28 (resync_a p28 (bw28 true w28a empty_asys) w28b) = [] /\
   map (stt (abase (inc true))) [1; 2] = [Pending; Pending] /\
   map (stt (abase (scr true))) [1; 2] = [Pending; Succeeded] /\
   same_result_b p28 (abase (inc true)) (abase (scr true)) = false /\
-  a_build_log mix_run (amend_tab tab28) false p28 p28 (resync_a p28 (bw28 false w28a empty_asys) w28b)
+  a_build_log mix_run (amend_tab tab28) no_fail false p28 p28 (resync_a p28 (bw28 false w28a empty_asys) w28b)
     = [(2, true)] /\
   same_result_b p28 (abase (inc false)) (abase (scr false)) = true.
 Proof. exact D28_engine_refuted. Qed.
@@ -614,11 +627,56 @@ Example C01_amend_deferral_history :
   let y1 := bw28 false w28c empty_asys in
   let y2 := bw28 false w28a y1 in
   let y3 := bw28 false w28c y2 in
-  a_build_log mix_run (amend_tab tab28) false p28 p28 (resync_a p28 empty_asys w28c) = [(2, true)] /\
+  a_build_log mix_run (amend_tab tab28) no_fail false p28 p28 (resync_a p28 empty_asys w28c) = [(2, true)] /\
   map (stt (abase y1)) [1; 2] = [Pending; Pending] /\ adyn y1 2 = [10] /\ adef y1 2 = true /\
-  a_build_log mix_run (amend_tab tab28) false p28 p28 (resync_a p28 y1 w28a) = [(1, true); (2, true)] /\
+  a_build_log mix_run (amend_tab tab28) no_fail false p28 p28 (resync_a p28 y1 w28a) = [(1, true); (2, true)] /\
   map (stt (abase y2)) [1; 2] = [Succeeded; Succeeded] /\
-  a_build_log mix_run (amend_tab tab28) false p28 p28 (resync_a p28 y2 w28c) = [(2, true)] /\
+  a_build_log mix_run (amend_tab tab28) no_fail false p28 p28 (resync_a p28 y2 w28c) = [(2, true)] /\
   map (stt (abase y3)) [1; 2] = [Pending; Pending] /\
   same_result_b p28 (abase y3) (abase y1) = true.
+Proof. vm_compute. repeat split; reflexivity. Qed.
+
+(* A failing step that is repaired (ungated engine, builds with --keep-going).  Project: step 1
+   reads source 3 and writes 10; step 2 = script 2 reads 10 (declared) and writes 20; step 3 reads
+   20 and writes 30; step 4 reads source 3 and writes 40.  Script version 6 fails, versions 5 and 7
+   work.  Build with version 5: everything runs.  Version 6: step 2 runs and FAILS, 3 stays
+   PENDING (its input is no longer built), 1 and 4 are untouched.  The source changes while the
+   script is still broken: 1 and 4 rerun (keep going), 2 fails again.  Version 7 repairs it: 2
+   and 3 run.  After every build the state equals the one of a build from scratch of that world
+   (instances of C01_amend_full_holds). *)
+Definition pF : project :=
+  [mkStep 1 [3] [] [10]; mkStep 2 [2; 10] [] [20]; mkStep 3 [20] [] [30]; mkStep 4 [3] [] [40]].
+Definition ftabF : list (N * N) := [(2, 6)].
+Definition wF (script src : N) : world := (src_of [(2, script); (3, src)], fun _ => None).
+Definition bwF (w : world) (y : asys) : asys :=
+  build_world_a mix_run (amend_tab []) (fail_tab ftabF) false pF w y.
+Definition logF (w : world) (y : asys) : list (N * bool) :=
+  a_build_log mix_run (amend_tab []) (fail_tab ftabF) false pF pF (resync_a pF y w).
+Definition same_result_ab (proj : project) (y z : asys) : bool :=
+  same_result_b proj (abase y) (abase z) &&
+  forallb (fun s => Bool.eqb (afail y (sid s)) (afail z (sid s))) proj.
+
+Example C01_wf_a_pF : wf_a (amend_tab []) pF.
+Proof.
+  intros y. unfold eproj, pF, eff, extra_now, amend_tab. cbn [map inp sid envn out find].
+  destruct (fs y 3); destruct (fs y 2); destruct (fs y 20); vm_compute; reflexivity.
+Qed.
+
+Example C01_failing_step_repaired :
+  let y1 := bwF (wF 5 1) empty_asys in
+  let y2 := bwF (wF 6 1) y1 in
+  let y3 := bwF (wF 6 2) y2 in
+  let y4 := bwF (wF 7 2) y3 in
+  logF (wF 5 1) empty_asys = [(1, true); (2, true); (3, true); (4, true)] /\
+  logF (wF 6 1) y1 = [(2, true)] /\
+  map (stt (abase y2)) [1; 2; 3; 4] = [Succeeded; Pending; Pending; Succeeded] /\
+  map (afail y2) [1; 2; 3; 4] = [false; true; false; false] /\
+  logF (wF 6 2) y2 = [(1, true); (2, true); (4, true)] /\
+  map (afail y3) [1; 2; 3; 4] = [false; true; false; false] /\
+  logF (wF 7 2) y3 = [(2, true); (3, true)] /\
+  map (stt (abase y4)) [1; 2; 3; 4] = [Succeeded; Succeeded; Succeeded; Succeeded] /\
+  map (afail y4) [1; 2; 3; 4] = [false; false; false; false] /\
+  same_result_ab pF y2 (bwF (wF 6 1) empty_asys) = true /\
+  same_result_ab pF y3 (bwF (wF 6 2) empty_asys) = true /\
+  same_result_ab pF y4 (bwF (wF 7 2) empty_asys) = true.
 Proof. vm_compute. repeat split; reflexivity. Qed.
